@@ -50,6 +50,11 @@ pub struct TypeSpec {
     /// (it returns `Result<T, E0>` when variant 0 returns `T`, and the other way round)
     #[serde(default)]
     pub v1_flip: bool,
+    /// the type carries a lifetime: `struct T<i><'a> { tag, src: &'a T<j> }`, built by
+    /// `fn c<'a>(a0: &'a T<j>, ..) -> T<i><'a>`; `j` is one of `inputs`, taken by `Mode::Ref`.
+    /// A live value of this type keeps its source borrowed (request-scoped / transient types only).
+    #[serde(default)]
+    pub view_of: Option<usize>,
 }
 
 impl TypeSpec {
